@@ -21,12 +21,41 @@ CFG_NAMES = sorted(CONFIGS)
 _cfg_paths = {}
 
 
+def cfg_text(name):
+    """Curated config, or 'opt:<name>=<value>' for a single-option config."""
+    if name.startswith('opt:'):
+        return name[4:].replace('=', ' = ', 1) + '\n'
+    return CONFIGS[name]
+
+
 def _cfg(name, root):
-    p = os.path.join(root, 'cfg-%s.cfg' % name)
+    p = os.path.join(root, 'cfg-%s.cfg' % sha(name))
     if not os.path.exists(p):
-        with open(p, 'w') as f:
-            f.write(CONFIGS[name])
+        tmp = p + '.%d' % os.getpid()
+        with open(tmp, 'w') as f:
+            f.write(cfg_text(name))
+        os.replace(tmp, p)
     return p
+
+
+# minimal malformed file endings by construct, and the option families that process that construct
+TAIL_FAMILIES = {
+    'comment': ([b'/*', b'/* x', b'/**/', b'//', b'// x \\', b'/+', b'/', b'/*/', b'*/', b'/* a\n * b', b'int a; /*', b'int a; //'],
+                ('cmt_', 'sp_cmt', 'sp_before_tr', 'sp_num_before_tr', 'nl_before_block_comment', 'nl_before_c_comment', 'nl_before_cpp_comment',
+                 'nl_after_multiline_comment', 'mod_add_', 'indent_cmt', 'indent_col1_comment', 'indent_relative_single', 'align_right_cmt', 'sp_endif_cmt',
+                 'indent_comment')),
+    'string': ([b'"', b'"abc', b"'", b'R"(', b'R"x(abc', b'L"', b'@"', b'"\\', b'a = "x" "'],
+               ('string_', 'indent_align_string', 'sp_', 'align_')),
+    'pp': ([b'#', b'#if', b'#if 1', b'#define', b'#define X \\', b'#include', b'#include <', b'#pragma', b'#endif', b'#else', b'#if 1\n#else',
+            b'#define X(a', b'# '],
+           ('pp_', 'nl_squeeze', 'nl_multi_line_define', 'nl_before_if_closing', 'nl_after_if', 'mod_add_long_ifdef', 'align_pp', 'align_nl_cont',
+            'sp_pp', 'sp_macro', 'sp_before_nl_cont', 'indent_macro')),
+    'block': ([b'{', b'(', b'[', b'}', b')', b']', b'if (', b'if (a)', b'else', b'do', b'for (;;', b'case', b'switch (a) {', b'switch (a) { case 1:',
+               b'a ?', b'return', b'enum {', b'struct {', b'a = {', b'template<', b'class A :'],
+              ('mod_', 'nl_', 'eat_blanks', 'indent_brace', 'indent_switch', 'indent_case')),
+}
+
+
 
 
 def _norm_msg(err):
@@ -136,6 +165,35 @@ def build_cases(ctx):
     add('empty', b'', 'C', 'default', 'stdin')
     add('nul', b'int a;\x00int b;\n', 'C', 'default', 'stdin')
     add('nul', b'int a;\x00int b;\n', 'CPP', 'default', 'file', True)
+    # universe 0: minimal malformed endings x every value of every option of the family that processes that construct
+    from .. import registry, build as _b
+    opts = registry.options(_b.binary('asan'))
+    fam_cases = {k: [] for k in TAIL_FAMILIES}
+    for fam, (tails, prefixes) in TAIL_FAMILIES.items():
+        sel = [o for o in opts if o.name.startswith(prefixes) and o.type != 'string' and o.cls not in ('debug', 'file_inserting')]
+        if fam == 'string':
+            sel = [o for o in sel if o.name.startswith(('string_', 'indent_align_string'))] + sel[:0]
+        for o in sel:
+            for v in registry.values_for(o):
+                if str(v).lower() == str(o.default).lower():
+                    continue
+                from ..cfggen import is_slow
+                if is_slow(o.name, v):
+                    continue
+                for k, tail in enumerate(tails):
+                    lang = ('D' if tail.startswith(b'/+') else ['C', 'CPP', 'CS', 'JAVA'][(k + len(o.name)) % 4])
+                    fam_cases[fam].append((prefix.get(lang, b'') + tail, lang, 'opt:%s=%s' % (o.name, v)))
+                    if fam in ('comment', 'string'):
+                        # the same ending after balanced code (the passes after brace matching are reached)
+                        fam_cases[fam].append((b'int z;\n' + tail, lang, 'opt:%s=%s' % (o.name, v)))
+    ctx.extra['tail_option_universe'] = {k: len(v) for k, v in fam_cases.items()}
+    for fam, lst in fam_cases.items():
+        if quick and fam != 'comment':
+            lst = sr.sample(lst, min(len(lst), 500))
+        elif not quick and len(lst) > 20000:
+            lst = sr.sample(lst, 20000)
+        for data, lang, cfgname in lst:
+            add('tailopt-' + fam, data, lang, cfgname, 'file')
     # universe 1: every line-boundary truncation of every corpus file
     pool = []
     for rel, lang in files:
@@ -207,7 +265,7 @@ def check(ctx):
         key = '%s|%s' % (v[0], locus or v[1])
         ctx.violation(key, '%s: %s (case %s, lang %s, config %s, mode %s)\nstderr: %s\n%s' % (
             v[0], locus or v[1], cid, c[2], c[3], c[4], err, san),
-            files={'input' + corpus.ext_for(c[2]): c[1], 'config.cfg': CONFIGS[c[3]]},
+            files={'input' + corpus.ext_for(c[2]): c[1], 'config.cfg': cfg_text(c[3])},
             argv=['uncrustify', '-c', 'config.cfg', '-l', c[2], '-f', 'input' + corpus.ext_for(c[2])])
     for k in list(cases)[:3]:
         c = cases[k]
